@@ -1,6 +1,6 @@
 #!/bin/sh
 # usage: tools_mutant.sh <patch.diff> <ID> [tier]  - applies a patch to /repo, runs the check, reverts.
-patch="$1"; id="$2"; tier="${3:-quick}"
+patch="$(readlink -f "$1")"; id="$2"; tier="${3:-quick}"
 cd /verif || exit 2
 if [ -n "$(git -C /repo status --porcelain)" ]; then echo "/repo not clean"; exit 2; fi
 git -C /repo apply "$patch" || { echo "patch does not apply"; exit 2; }
